@@ -29,7 +29,8 @@ s = runner.Session(flavor, feats)
 t0 = time.time()
 if name in props.SPECS and os.environ.get('CB'):
     import cb
-    r = cb.run_cb(s, props.SPECS[name], K=int(os.environ['CB']), timeout_s=int(os.environ.get('TIMEOUT_S', '1800')), flavor=flavor, features=feats,
+    spec_ = dict(props.SPECS[name], hb=True) if os.environ.get('HB') else props.SPECS[name]
+    r = cb.run_cb(s, spec_, K=int(os.environ['CB']), timeout_s=int(os.environ.get('TIMEOUT_S', '1800')), flavor=flavor, features=feats,
                   subject=int(os.environ['SUBJECT']) if os.environ.get('SUBJECT') else None)
 elif name in props.SPECS:
     r = conc.run_conc(s, props.SPECS[name], loop_bound=int(os.environ.get('LOOP_BOUND', '3')),
